@@ -155,7 +155,7 @@ pub fn run(ctx: &Ctx) -> Report {
         if i < 3 {
             rep.sample(d());
         }
-        let mut fail = |sig: &str, what: String, rep: &mut Report| rep.violations.push(viol("C11", format!("C11 {}", sig), what, d()));
+        let fail = |sig: &str, what: String, rep: &mut Report| rep.violations.push(viol("C11", format!("C11 {}", sig), what, d()));
         if let Outcome::Panic { file, line, msg } = &obs.outcome {
             let s = panic_signature(file, *line, msg);
             fail(&s, format!("run_on panicked during the connection phase: {}", obs.outcome.describe()), rep);
@@ -351,7 +351,7 @@ pub fn run(ctx: &Ctx) -> Report {
             if i < 1 {
                 rep.sample(d());
             }
-            let mut fail = |sig: &str, what: String, rep: &mut Report| rep.violations.push(viol("C11", format!("C11 transient:{}", sig), what, d()));
+            let fail = |sig: &str, what: String, rep: &mut Report| rep.violations.push(viol("C11", format!("C11 transient:{}", sig), what, d()));
             if let Outcome::Panic { file, line, msg } = &obs.outcome {
                 fail(&panic_signature(file, *line, msg), format!("a transient {} made run_on panic: {}", kname, obs.outcome.describe()), rep);
                 return;
@@ -418,7 +418,7 @@ pub fn run(ctx: &Ctx) -> Report {
         if i < 1 {
             rep.sample(d());
         }
-        let mut fail = |sig: &str, what: String, rep: &mut Report| rep.violations.push(viol("C11", format!("C11 defaults:{}", sig), what, d()));
+        let fail = |sig: &str, what: String, rep: &mut Report| rep.violations.push(viol("C11", format!("C11 defaults:{}", sig), what, d()));
         if let Outcome::Panic { file, line, msg } = &obs.outcome {
             fail(&panic_signature(file, *line, msg), format!("run_on panicked: {}", obs.outcome.describe()), rep);
             return;
@@ -533,7 +533,7 @@ pub fn run(ctx: &Ctx) -> Report {
             if i < 1 {
                 rep.sample(d());
             }
-            let mut fail = |sig: &str, what: String, rep: &mut Report| rep.violations.push(viol("C11", format!("C11 tls:{}", sig), what, d()));
+            let fail = |sig: &str, what: String, rep: &mut Report| rep.violations.push(viol("C11", format!("C11 tls:{}", sig), what, d()));
             if let Outcome::Panic { file, line, msg } = &o.outcome {
                 if is_harness_file(file) {
                     rep.inconclusive.push(format!("harness panic at {}:{}", file, line));
